@@ -88,3 +88,10 @@ Theorem C10_generator_matrix_column_relation :
     ip v (col j (map (mat_enc G n_ext) rows)) = nth j (mat_enc G n_ext (rowcomb rows n_cols v)) 0.
 Proof. exact @mat_enc_cols. Qed.
 Print Assumptions C10_generator_matrix_column_relation.
+
+(* the loop over several polynomials accepts only if the check of every single item accepts: no position is skipped *)
+Theorem C10_lincode_multi_every_item :
+  forall (FO : FieldOps) wf items,
+    l_check_all wf items = Ok true -> Forall (fun it => l_check_item wf it = Ok true) items.
+Proof. exact @l_check_all_every_item. Qed.
+Print Assumptions C10_lincode_multi_every_item.
